@@ -87,6 +87,8 @@ def run_case(sub, ex, conn_n, upg_n, part=None):
     sym_bytes = [b for b in conn + upg + ver if z3.is_expr(b)]
     # header values: HTAB, SP, visible ASCII (what http::HeaderValue::to_str accepts)
     assume = [z3.Or(b == 9, z3.And(z3.UGE(b, 32), z3.ULE(b, 126))) for b in sym_bytes]
+    # the key: any octets a header value can carry (visible ASCII or obs-text >= 0x80; surrounding whitespace is stripped by the HTTP parser)
+    assume += [z3.And(z3.UGE(b, 0x21), b != 0x7f) for b in key.bs]
     if part is not None:
         k, bits = part
         for i in range(k):
@@ -136,7 +138,7 @@ def run_case(sub, ex, conn_n, upg_n, part=None):
                     and isinstance(acc.payload[1], Opaque) and acc.payload[1].tag == 'sha1' and len(acc.payload[1].payload) == 2 \
                     and acc.payload[1].payload[0] is key and bytes(sb_bytes(acc.payload[1].payload[1])) == GUID and nspawn == 1
             m = sub.prove(f'{tag}/101-with-rfc6455-accept-digest', pc2, z3.BoolVal(not ok101), extra=assume)
-            report(sub, m, conn, upg, ver, p, asc, f'101 response / accept digest wrong: {resp}')
+            report(sub, m, conn, upg, ver, p, asc, f'101 response / accept digest wrong: {resp}', key=key)
         def spec(d):
             if not d(p['connection']) or not d(asc['connection']) or not list_has_token(conn, 'upgrade', d): return False
             if not d(p['upgrade']) or not d(asc['upgrade']) or not list_has_token(upg, 'websocket', d): return False
@@ -151,7 +153,7 @@ def concrete(m, bs):
     return bytes(m.eval(b8(b), model_completion=True).as_long() for b in bs)
 
 
-def report(sub, m, conn, upg, ver, p, asc, what):
+def report(sub, m, conn, upg, ver, p, asc, what, key=None):
     if m is None: return
     ev = lambda t: bool(m.eval(t, model_completion=True))
     hdr = {}
@@ -159,6 +161,10 @@ def report(sub, m, conn, upg, ver, p, asc, what):
         hdr[k] = None if not ev(p[k]) else ('non-ascii' if not ev(asc[k]) else concrete(m, bs).decode('latin1'))
     hdr['version'] = concrete(m, ver).decode('latin1') if ev(p['version']) else None
     hdr['key'] = 'dGhlIHNhbXBsZSBub25jZQ==' if ev(p['key']) else None
+    if key is not None and ev(p['key']):
+        kb = concrete(m, key.bs)
+        if all(b in (9,) or 0x20 <= b <= 0x7e or b >= 0x80 for b in kb) and kb.strip(b' \t') == kb and kb:
+            hdr['key_bytes'] = list(kb); hdr['key'] = kb.decode('latin1')
     case = {'op': 'ws_handshake', 'headers': hdr}
     nat = replay([case])[0]
     want = spec_concrete(hdr)
